@@ -249,6 +249,11 @@ func (store *Store) Restore() error {
 		if err != nil {
 			return err
 		}
+		if len(cmd) == 0 || (strings.EqualFold(cmd[0], "select") && len(cmd) < 2) {
+			// Not something this store has written (what a torn entry and later appends can add up to):
+			// report it instead of indexing into it.
+			return fmt.Errorf("restore aof: malformed entry ending at offset %d", offset)
+		}
 		// If the command is a SELECT command, set the database value.
 		if strings.EqualFold(cmd[0], "select") {
 			database, err = strconv.Atoi(cmd[1])
